@@ -47,3 +47,4 @@ CONSTANTS
  BadFrames = {"connack", "connect", "puback", "publish", "subscribe"}
  SendWhileDisc = FALSE
  PeerWhileDisc = TRUE
+ LateFrames = FALSE
